@@ -7,6 +7,7 @@ PROP = {
                      "SwimVerif.Model.AssocList"],
     "engines": [
         e2e_engine("C03"),
+        wt_engine("C03", quick=2000),
         {"name": "ml", "crate": "core", "bin": "sv-ml", "machine": "ml",
          "reasons": r"snapshot-.*|sync-.*|synced-.*|unparsable.*",
          "cases": {"quick": 4000, "thorough": 400000}, "min_shard": 500, "nontrivial_min_ops": 6},
